@@ -74,8 +74,8 @@ const (
 	OULe
 	OSLt
 	OSLe
-	OZExt   // Sort.W is target width
-	OSExt   // Sort.W is target width
+	OZExt    // Sort.W is target width
+	OSExt    // Sort.W is target width
 	OExtract // C = lo, result width Sort.W
 	OConcat
 	// FP
@@ -93,8 +93,8 @@ const (
 	OFToUBV  // fp -> unsigned bv (RTZ)
 	OSBVToFP // signed bv -> fp (RNE)
 	OUBVToFP
-	OFToFP   // fp -> fp other precision (RNE)
-	OFRound  // roundToIntegral; C = mode (0 RNE,1 RNA,2 RTP,3 RTN,4 RTZ)
+	OFToFP    // fp -> fp other precision (RNE)
+	OFRound   // roundToIntegral; C = mode (0 RNE,1 RNA,2 RTP,3 RTN,4 RTZ)
 	OBitsToFP // reinterpret bv as fp
 	nOps
 )
@@ -111,12 +111,12 @@ var rmNames = []string{"RNE", "RNA", "RTP", "RTN", "RTZ"}
 
 // T is an immutable hash-consed term.
 type T struct {
-	Op   Op
-	Sort Sort
-	Args []*T
-	C    uint64 // constant bits (Bool: 0/1; BV: value masked; FP: IEEE bits) or op parameter
-	Name string // OVar
-	ID   int
+	Op    Op
+	Sort  Sort
+	Args  []*T
+	C     uint64 // constant bits (Bool: 0/1; BV: value masked; FP: IEEE bits) or op parameter
+	Name  string // OVar
+	ID    int
 	HasFP bool // some subterm is a floating-point operation
 	// solver bookkeeping (per Store, single owner)
 	DefEpoch int
